@@ -341,7 +341,7 @@ func (s *ImmuServer) ChangePassword(ctx context.Context, r *schema.ChangePasswor
 	s.Logger.Infof("password for user %s was changed by user %s", targetUser.Username, user.Username)
 
 	// remove user from logged in users
-	s.removeUserFromLoginList(targetUser.Username)
+	s.userdata.RemoveAllSessions(targetUser.Username)
 
 	// invalidate the token for this user
 	auth.DropTokenKeys(targetUser.Username)
@@ -440,7 +440,7 @@ func (s *ImmuServer) ChangePermission(ctx context.Context, r *schema.ChangePermi
 	s.Logger.Infof("permissions of user %s for database %s was changed by user %s", targetUser.Username, r.Database, user.Username)
 
 	// remove user from loggedin users
-	s.removeUserFromLoginList(targetUser.Username)
+	s.userdata.RemoveAllSessions(targetUser.Username)
 
 	// terminate active sessions for this user
 	s.SessManager.CloseSessionsForUser(targetUser.Username)
@@ -503,7 +503,7 @@ func (s *ImmuServer) SetActiveUser(ctx context.Context, r *schema.SetActiveUserR
 	}[r.Active], user.Username)
 
 	//remove user from loggedin users
-	s.removeUserFromLoginList(targetUser.Username)
+	s.userdata.RemoveAllSessions(targetUser.Username)
 
 	// terminate active sessions for this user
 	s.SessManager.CloseSessionsForUser(targetUser.Username)
@@ -737,7 +737,7 @@ func (s *ImmuServer) ChangeSQLPrivileges(ctx context.Context, r *schema.ChangeSQ
 	s.Logger.Infof("permissions of user %s for database %s was changed by user %s", targetUser.Username, r.Database, user.Username)
 
 	// remove user from loggedin users
-	s.removeUserFromLoginList(targetUser.Username)
+	s.userdata.RemoveAllSessions(targetUser.Username)
 
 	// terminate active sessions for this user
 	s.SessManager.CloseSessionsForUser(targetUser.Username)
